@@ -48,27 +48,32 @@ Example entry_ok_example : entry_ok m0 (mkent 2 5 7 3 1 (Some 4%N)) = true /\
   entry_ok m0 (mkent 0 5 7 3 USIZE_MAX None) = true.
 Proof. vm_compute. split; reflexivity. Qed.
 
-(** [C06_sources_in_range_partial]: two schema files, two operation files, the second being printed;
-    nodes of both schema files and of that operation file are mapped, named and unnamed, over several
-    lines with indentation *)
+(** [C06_sources_in_range]: two schema files, three operation files, the second being printed with a
+    fragment imported from the third; nodes of both schema files and of both contributing operation
+    files are mapped, named and unnamed, over several lines with indentation *)
 Definition ex_store : file_store :=
-  {| fs_schema := [s "/p/a.graphql"; s "/p/b.graphql"]; fs_ops := [s "/p/q1.graphql"; s "/p/q2.graphql"] |}.
+  {| fs_schema := [s "/p/a.graphql"; s "/p/b.graphql"]; fs_ops := [s "/p/q1.graphql"; s "/p/q2.graphql"; s "/p/z.graphql"] |}.
 Definition ex_ops : list wop :=
   [WF (s "export type ") (mkpos 3 0 0 false) (Some (s "type")); WF (s "User") (mkpos 3 5 0 false) (Some (s "User"));
    W (s " = {"); Indent; W [10%N];
    WF (s "id") (mkpos 1 2 1 false) (Some (s "id")); W (s ": string;"); Dedent; W (10%N :: s "};" ++ [10%N]);
-   W (s "type "); WF (s "Q2Result") (mkpos 0 6 3 false) (Some (s "Q2")); WF (s " = ") (mkpos 0 9 3 false) None].
+   W (s "type "); WF (s "Q2Result") (mkpos 0 6 3 false) (Some (s "Q2")); WF (s " = ") (mkpos 0 9 3 false) None;
+   W [10%N]; W (s "type "); WF (s "F") (mkpos 0 0 4 false) (Some (s "F"))].
+
+Definition ex_doc : option opdoc := Some (3, [3; 4; 3])%N.
 
 Example sources_in_range_guard_example :
-  store_small ex_store /\ ops_mapped ex_store (Some 3%N) ex_ops = true /\
-  option_map (fun st => option_map (@length seg) (decode_mappings (mbuf (sw_map st))))
-             (sw_run (Some (file_indices ex_store (Some 3%N))) ex_ops) = Some (Some 9%nat) /\
-  sources_of ex_store (Some 3%N) = [s "/p/a.graphql"; s "/p/b.graphql"; s "/p/q2.graphql"] /\
-  file_indices ex_store (Some 3%N) = [0; 1; USIZE_MAX; 2]%N.
+  store_small ex_store /\ ops_mapped ex_store ex_doc ex_ops = true /\
+  option_map (fun st => option_map (map (fun g => match g_orig g with Some (sr, _, _, _) => sr | None => (-9)%Z end))
+                                   (decode_mappings (mbuf (sw_map st))))
+             (sw_run (Some (file_indices ex_store ex_doc)) ex_ops) = Some (Some [0; 0; 0; 0; 1; 1; 2; 2; 2; 3; 3]%Z) /\
+  sources_of ex_store ex_doc = [s "/p/a.graphql"; s "/p/b.graphql"; s "/p/q2.graphql"; s "/p/z.graphql"] /\
+  file_indices ex_store ex_doc = [0; 1; USIZE_MAX; 2; 3]%N /\
+  file_indices ex_store None = [0; 1; USIZE_MAX; USIZE_MAX; USIZE_MAX]%N.
 Proof. split; [vm_compute; reflexivity|]. vm_compute. repeat split. Qed.
 
-(** … and the guard fails on the witness of the refutation (a node of the other operation file) *)
-Example sources_in_range_guard_fails_on_witness : ops_mapped wit_store (Some 1%N) wit_ops = false.
+(** … and the guard fails for a node of an operation file that contributes no definition *)
+Example sources_in_range_guard_fails : ops_mapped ex_store (Some (3, [3])%N) ex_ops = false.
 Proof. vm_compute. reflexivity. Qed.
 
 (** [C06_named_segment_text]: hypotheses hold on a reachable state with pending indentation *)
@@ -82,3 +87,20 @@ Proof. eexists. eexists. split; [vm_compute; reflexivity|]. split; [vm_compute; 
 (** [C06_vlq_model_is_rust]: the range is the whole of isize; outside it the 64-bit computation differs *)
 Example vlq64_differs_outside : vlq_sextets64 (2 ^ 64 + 5)%Z <> vlq_sextets (2 ^ 64 + 5)%Z.
 Proof. vm_compute. discriminate. Qed.
+
+(** [C06_operation_definitions_are_mapped]: a document with a named query and an imported fragment
+    (file 2), default options; the run succeeds and the mappings decode to 16 segments *)
+From V Require C14.Model C06.ProofsDefs.
+Module PX := C14.Model.
+Definition ex_doc14 : PX.doc :=
+  PX.Doc 1 [PX.OpDef PX.KQuery (Some (s "me", PX.P 1 6 1 false)) (PX.P 1 0 1 false) (PX.P 1 9 1 false);
+            PX.FragDef (s "F") (PX.P 0 0 2 false)].
+Definition ex_bodies : list PX.defbody :=
+  [PX.Body [PX.W (s "{"); PX.Indent; PX.W [10%N]; PX.WF (s "me") (PX.P 2 2 1 false) (Some (s "me")); PX.W (s ": string;"); PX.Dedent; PX.W (10%N :: s "}")]
+           [PX.W (s "{}")] (s "{}");
+   PX.Body [PX.W (s "{}")] [] (s "{}")].
+Example operation_definitions_example :
+  option_map (fun st => (option_map (@length seg) (decode_mappings (mbuf (sw_map st))), nm_all (sw_names st)))
+    (sw_run (Some [0; 1; 2]%N) (map ProofsDefs.conv_wop (PX.dts_ops PX.type_default ex_doc14 ex_bodies)))
+  = Some (Some 16%nat, [s "me"; s "F"]).
+Proof. vm_compute. reflexivity. Qed.
